@@ -359,7 +359,9 @@ def rule_handlers(ctx, tu):
             if cp and cp[0] == "FlagAsComplete":
                 recs2.append(facts)
         cxa.canon_facts(m.body, on_atom=on2)
-        ok = len(recs2) == 1 and ("t_max < t", True) in recs2[0] and ("0 <= t_max", True) in recs2[0]
+        # `if(t_max < 0) return;` before the test says the same as `t_max >= 0 &&` in it (for a NaN t_max neither form completes)
+        ok = len(recs2) == 1 and ("t_max < t", True) in recs2[0] and (("0 <= t_max", True) in recs2[0] or
+                                                                      ("t_max < 0", False) in recs2[0])
         ctx.check(ok, R, m.node, m.qual, "complete when t_max >= 0 and t > t_max", "the first step beyond t_max ends the run",
                   "completion condition changed")
     ctx.floor(R, 10)
